@@ -92,6 +92,7 @@ func (v *Verifier) havocAll(st *State, why string) {
 	for g := range st.ghost {
 		st.ghost[g] = v.Y.fresh(v.D, "gall", st.ghost[g].Sort)
 	}
+	st.globalHavocs = append(st.globalHavocs, modLoc{kind: "heap"})
 	st.havocEpoch++
 }
 
@@ -606,24 +607,14 @@ func (v *Verifier) havocLoc(st *State, l modLoc, in ssa.Instruction) {
 		if v.col != nil {
 			st.colW = append(st.colW, wrec{l.key, mk("Ptr", "zz_fld", v.Y.fresh(v.D, "anyobj", "Ptr"), l.addr)})
 		}
-	case "under":
+	case "under", "userdata":
 		for _, k := range sortedKeys(st.heap) {
-			h := st.heap[k]
-			if h.IdxSort != "Ptr" || strings.HasPrefix(k, "g_") {
-				continue
-			}
-			oldArr := h.arrayTerm()
-			nb := v.Y.fresh(v.D, "hund", h.arraySort())
-			p := mk("Ptr", "zz_qp")
-			sel := mk(h.ElSort, "select", nb, p)
-			st.assume(mk("Bool", "forall ((zz_qp Ptr))", withPattern(tImp(tNot(mk("Bool", "zz_under", p, l.base)), tEq(sel, mk(h.ElSort, "select", oldArr, p))), sel)))
-			h.Base = nb
-			h.Writes = nil
-			if v.col != nil {
-				st.colW = append(st.colW, wrec{key: "ALLKEY:" + k})
-			}
+			v.applyGlobalHavoc(st, st.heap[k], l)
 		}
-		st.underHavoc = append(st.underHavoc, l.base)
+		st.globalHavocs = append(st.globalHavocs, l)
+		if v.col != nil {
+			st.colW = append(st.colW, wrec{key: "GLOBAL:" + l.kind, addr: l.base})
+		}
 	case "anyelems":
 		h := st.heap[l.key]
 		if h == nil {
@@ -703,6 +694,9 @@ func inBackingArray(p, base *Term) *Term {
 // ---- frame checking (writes must stay inside the verified function's modifies clause)
 
 func (v *Verifier) frameViolation(st *State, in ssa.Instruction, why string) {
+	if in == nil {
+		return
+	}
 	if !v.frameOn || v.col != nil || v.curCon == nil || !v.curCon.HasModifies {
 		return
 	}
@@ -751,6 +745,10 @@ func (v *Verifier) frameCheckLoc(st *State, key string, addr *Term, in ssa.Instr
 			}
 		case "under":
 			alts = append(alts, mk("Bool", "zz_under", addr, m.base))
+		case "userdata":
+			if !strings.HasPrefix(key, "map") {
+				alts = append(alts, tNot(v.internalField(addr, key)))
+			}
 		case "anyelems":
 			if m.key == key {
 				if addr.Op == "zz_elem" {
@@ -1153,6 +1151,7 @@ func (v *Verifier) loopContract(f *Frame, h *ssa.BasicBlock) *LoopContract {
 }
 
 type writeSet struct {
+	globals []modLoc
 	anyelems map[string]bool
 	fields  map[string][]*Term // key -> field ids (any object)
 	exact   map[string][]wrec // key -> addresses
@@ -1166,7 +1165,7 @@ func newWriteSet() *writeSet {
 }
 
 func (w *writeSet) size() int {
-	n := len(w.allKeys) + len(w.ghosts) + len(w.anyelems)
+	n := len(w.allKeys) + len(w.ghosts) + len(w.anyelems) + len(w.globals)
 	for _, x := range w.exact {
 		n += len(x)
 	}
@@ -1210,6 +1209,9 @@ func (v *Verifier) applyWriteSet(st *State, w *writeSet) {
 	if w.allKeys["*"] {
 		v.havocAll(st, "loop")
 		return
+	}
+	for _, g := range w.globals {
+		v.havocLoc(st, g, nil)
 	}
 	for _, k := range sortedKeys(w.allKeys) {
 		if h, ok := st.heap[k]; ok {
@@ -1362,6 +1364,8 @@ func (v *Verifier) loopArrive(st *State, from, h *ssa.BasicBlock) {
 					v.col.allKeys[strings.TrimPrefix(w.key, "ALLKEY:")] = true
 				case strings.HasPrefix(w.key, "GHOST:"):
 					v.col.ghosts[strings.TrimPrefix(w.key, "GHOST:")] = true
+				case strings.HasPrefix(w.key, "GLOBAL:"):
+					v.col.globals = append(v.col.globals, modLoc{kind: strings.TrimPrefix(w.key, "GLOBAL:"), base: w.addr})
 				default:
 					v.col.writes = append(v.col.writes, w)
 				}
@@ -1425,6 +1429,19 @@ func (v *Verifier) loopArrive(st *State, from, h *ssa.BasicBlock) {
 			for g := range col.ghosts {
 				W.ghosts[g] = true
 			}
+			for _, g := range col.globals {
+				dup := false
+				for _, x := range W.globals {
+					if x.kind == g.kind && (x.base == nil || g.base == nil || termEq(x.base, g.base)) {
+						dup = true
+					}
+				}
+				if !dup && (g.base == nil || !mentionsAfter(g.base, mark, newMark)) {
+					W.globals = append(W.globals, g)
+				} else if !dup {
+					W.allKeys["*"] = true
+				}
+			}
 			for _, wr := range col.writes {
 				root := rootOf(wr.addr)
 				if root.Op == "zz_new" {
@@ -1470,6 +1487,9 @@ func (v *Verifier) loopArrive(st *State, from, h *ssa.BasicBlock) {
 			}
 			for g := range W.ghosts {
 				st.colW = append(st.colW, wrec{key: "GHOST:" + g})
+			}
+			for _, g := range W.globals {
+				st.colW = append(st.colW, wrec{key: "GLOBAL:" + g.kind, addr: g.base})
 			}
 			for _, k := range sortedKeys(W.exact) {
 				st.colW = append(st.colW, W.exact[k]...)
@@ -1667,8 +1687,9 @@ func (v *Verifier) verifyFunc(fn *ssa.Function, con *Contract, name string) {
 			v.topVars[fv.Name()] = Val{t, fv.Type()}
 		}
 	}
+	stBare := st.clone() // parameters and type facts only: used for the behavioural-subtyping check of `implements`
 	env := &Env{v: v, st: st, vars: v.topVars, pkg: cpkg, frame: f, mode: 1}
-	for _, rq := range append(append([]*Clause{}, con.Requires...), con.Captures...) {
+	for _, rq := range append(append(append([]*Clause{}, con.Requires...), con.Captures...), con.Unfolds...) {
 		g, err := env.evalBool(rq.Expr)
 		if err != nil {
 			v.errorf("requires %s: %v", rq.Label, err)
@@ -1729,6 +1750,40 @@ func (v *Verifier) verifyFunc(fn *ssa.Function, con *Contract, name string) {
 			st.assume(g)
 		}
 		pendingGU = append(pendingGU, guJob{ic, ienv})
+		if ic.Kind == "iface" {
+			// behavioural subtyping: the interface's precondition (plus the trusted unfoldings of its abstract
+			// predicates for this implementer) must imply the implementer's own precondition
+			sb := stBare.clone()
+			benv := *ienv
+			benv.st = sb
+			benv.mode = 1
+			benv.vars = map[string]Val{}
+			for k, x := range ienv.vars {
+				benv.vars[k] = x
+			}
+			if len(args) > 0 {
+				benv.vars[ic.Params[0]] = Val{v.box(sb, args[0], fn.Params[0].Type()), types.NewInterfaceType(nil, nil)}
+			}
+			for _, rq := range ic.Requires {
+				if g, err := benv.evalBool(rq.Expr); err == nil {
+					sb.assume(g)
+				}
+			}
+			oenv := &Env{v: v, st: sb, vars: v.topVars, pkg: cpkg, frame: sb.top(), mode: 1}
+			for _, uf := range con.Unfolds {
+				if g, err := oenv.evalBool(uf.Expr); err == nil {
+					sb.assume(g)
+				}
+			}
+			oenv.mode = 2
+			for _, rq := range con.Requires {
+				g, err := oenv.evalBool(rq.Expr)
+				if err != nil {
+					g = tFalse
+				}
+				v.emit(sb, "impl-pre", fs2(impl)+":"+rq.Label, rq.Tags, g, rq.Src+"  (must follow from the precondition of "+impl+")", "")
+			}
+		}
 		// its postconditions become obligations, evaluated with its own parameter names
 		cp := *ic
 		cp.Name = impl
@@ -1842,6 +1897,14 @@ func (v *Verifier) lookupImplTarget(con *Contract, impl string) *Contract {
 		}
 	}
 	return nil
+}
+
+func fs2(impl string) string {
+	fs := strings.Fields(impl)
+	if len(fs) == 2 {
+		return fs[1]
+	}
+	return impl
 }
 
 func sortStrings(xs []string) []string { sort.Strings(xs); return xs }
